@@ -1,5 +1,6 @@
 import Driver.Loop
 import PytypeModel.Merge.MergePyi
+import PytypeModel.Merge.Entry
 open PytypeModel.Merge
 
 /-! protocol (one case per line, whitespace-separated tokens; strings are percent-encoded by the
@@ -171,6 +172,28 @@ def answer (py pyi : List Stmt) : String :=
       ["G", bit m.leaked, bit m.scopeTop, bit m.genericAdded, bit (stubOK (mkCtx py pyi) pyi),
        bit (noDottedAny pyi), "|"] ++ m.body.flatMap flat)
 
+/-! `entry src|files <p|d|o> <backup> <changed 0/1>` and `entry main <--diff 0/1> <-i 0/1> <backup> <changed 0/1>`
+(backup: `-` = None, `EMPTY` = "", else the extension) on the symbolic disk {PY ↦ orig, PYI ↦ stub} with
+`merge_sources` returning `merged` (changed = 1) or `orig` (changed = 0)
+→ `err <noSuchFile|mergeError|usage>` | `ok <changed 0/1> <stdout: - | text:<t> | diff> <path=text;…>` -/
+def disk : Entry.FS := [("PY", "orig"), ("PYI", "stub")]
+def mergeFn (changed : String) : String → String → Option String :=
+  fun py _ => some (if changed == "1" then "merged" else py)
+def modeOf : String → Option Entry.Mode
+  | "p" => some .print | "d" => some .diff | "o" => some .overwrite | _ => none
+def backupOf : String → Option String
+  | "-" => none | "EMPTY" => some "" | b => some b
+def showEntry : Except Entry.Err Entry.Out → String
+  | .error .noSuchFile => "err noSuchFile"
+  | .error .mergeError => "err mergeError"
+  | .error .usage => "err usage"
+  | .ok o =>
+    let so := match o.stdout with
+      | [] => "-"
+      | [.text t] => "text:" ++ t
+      | _ => "diff"
+    s!"ok {if o.changed then 1 else 0} {so} {";".intercalate (o.fs.map fun (p, t) => p ++ "=" ++ t)}"
+
 def step (_ : Unit) (line : String) : Unit × Option String :=
   match (line.splitOn " ").filter (· ≠ "") with
   | "merge" :: ts =>
@@ -180,6 +203,16 @@ def step (_ : Unit) (line : String) : Unit × Option String :=
       if ts.isEmpty then pure (py, pyi) else none) with
     | some (py, pyi) => ((), some (answer py pyi))
     | none => ((), some "bad-input")
+  | ["entry", "src", mode, backup, changed] =>
+    match modeOf mode with
+    | some m => ((), some (showEntry (Entry.mergeFilesSrc (mergeFn changed) disk "PY" "stub" m (backupOf backup))))
+    | none => ((), some "bad-input")
+  | ["entry", "files", mode, backup, changed] =>
+    match modeOf mode with
+    | some m => ((), some (showEntry (Entry.mergeFiles (mergeFn changed) disk "PY" "PYI" m (backupOf backup))))
+    | none => ((), some "bad-input")
+  | ["entry", "main", d, i, backup, changed] =>
+    ((), some (showEntry (Entry.main (mergeFn changed) disk (d == "1") (i == "1") (backupOf backup) "PY" "PYI")))
   | _ => ((), some "bad-op")
 
 end C20
